@@ -118,7 +118,7 @@ package fox
 //@ fun staticSince(u string, k int) int = lastOpen(u, k) >= 0 ? k - nextClose(u, lastOpen(u, k)) - 1 : k
 
 //@ -- position k lies inside a wildcard "{...}" (braces included)
-//@ pred inside(u string, k int) = lastOpen(u, k+1) >= 0 && k <= nextClose(u, lastOpen(u, k+1))
+//@ pred opaque inside(u string, k int) = lastOpen(u, k+1) >= 0 && k <= nextClose(u, lastOpen(u, k+1))
 //@ pred ldh(c int) = ('a' <= c && c <= 'z') || ('A' <= c && c <= 'Z') || c == '_' || ('0' <= c && c <= '9') || c == '-'
 //@ pred numeric(c int) = ('0' <= c && c <= '9') || c == '.'
 
